@@ -209,6 +209,43 @@ def check_run(hist, r, stmt_line):
     return probs, key
 
 
+def leak_programs():
+    """handles that outlive the object owning the qubit (leak ways shared with checks/c03.py) against a freshly declared qubit d: the
+    measured flag of the one must never show up on the other. -> (name, source, line that must refuse or None, line of the stale use)"""
+    from checks import c03
+    base = c03.LEAK_CLS.count("\n") + 1
+    for ln, lsrc in c03.LEAKS.items():
+        for fn, (fsrc, handles) in c03.LEAK_FRESH.items():
+            d = handles[0]
+            bodies = {"measure-leaked-then-gate-fresh": (["measure s;", "x(%s);" % d], None, 0),
+                      "measure-leaked-reset-fresh-gate-leaked": (["measure s;", "reset %s;" % d, "x(s);"], 2, 0),
+                      "measure-fresh-then-gate-leaked": (["measure %s;" % d, "x(s);"], None, 1),
+                      "measure-fresh-reset-leaked-gate-fresh": (["measure %s;" % d, "reset s;", "x(%s);" % d], 2, 1)}
+            for bn, (stmts, refuse_at, stale_at) in bodies.items():
+                lines = ["function main() -> void {", "qubit pad;", lsrc, fsrc] + stmts + ["echo(\"end\");", "}"]
+                yield ("leak:%s:%s:%s" % (ln, fn, bn), c03.LEAK_CLS + "\n".join(lines) + "\n",
+                       None if refuse_at is None else base + 4 + refuse_at, base + 4 + stale_at)
+
+
+def _leak_one(item):
+    name, src, must_refuse, stale_line = item
+    r = vdrv.run_src(src, gc="own", warn=0)
+    if r.crash or r.rec is None:
+        return name, src, "interpreter died: %s %s" % (r.crash, r["fd2"][:300])
+    st, line, msg = r.rec.get("status"), r.rec.get("line"), r.rec.get("msg") or ""
+    if st == "runtime" and "measured" not in msg and line is not None and line <= (must_refuse or 10 ** 9):
+        return name, src, None          # the stale handle itself was refused: allowed
+    if must_refuse is None:
+        if st != "ok":
+            return name, src, "a program that never touches a measured qubit was stopped: %s at line %s: %s" % (st, line, msg)
+    else:
+        if st != "runtime":
+            return name, src, "the statement on line %d touches a measured qubit that was not reset, but the program ended with status %s %s" % (must_refuse, st, msg)
+        if line != must_refuse or "measured" not in msg:
+            return name, src, "the refusal should be on line %d ('... has already been measured') but is: line %s: %s" % (must_refuse, line, msg)
+    return name, src, None
+
+
 _LABELS = None
 
 
@@ -234,6 +271,12 @@ def main(tier):
     # simulator-level part (refusal inside QasmSimulator) comes from the sim_mc BFS
     res = simlevel.run_all([["bfs", "full", 3, 8 if tier != "thorough" else 10]])
     simlevel.report(ck, res, {"C06"})
+    nleak = 0
+    for name, src, prob in vdrv.pmap(_leak_one, list(leak_programs()), chunksize=4):
+        nleak += 1
+        if prob:
+            ck.violation(":".join(name.split(":")[:2] + name.split(":")[3:]) + ":" + prob.split(" ")[0], "%s\ncase %s\nprogram:\n%s" % (prob, name, src),
+                         {"tool": "vdrv", "job": {"kind": "run", "opts": {"gc": "own", "warn": 0}, "blobs": {"src": src}}})
     _LABELS = labelled_ops(tier)
     maxdepth = 6 if tier == "thorough" else 4
     ck.set_deadline(1500 if tier == "thorough" else 150)
@@ -276,6 +319,6 @@ def main(tier):
     ck.assumptions += ["a refusal is 'located' when line is the offending statement's line (or the helper body's line for operations reached through a function/method) and column > 0",
                        "'measure r' on an array is the sequence of its element measurements"]
     ck.finish({"states": len(seen) + sum(d.get("states", 0) for d in res), "transitions": transitions + sum(d.get("refused", 0) for d in res),
-               "traces_validated_against_impl": transitions, "eval_states": len(seen), "eval_transitions": transitions, "refusals_checked": refusals, "labelled_operations": len(_LABELS),
+               "traces_validated_against_impl": transitions, "eval_states": len(seen), "eval_transitions": transitions, "refusals_checked": refusals, "labelled_operations": len(_LABELS), "leaked_handle_programs": nleak,
                "labels_exercised": len(labels_hit), "depth_completed": depth, "fixpoint": not frontier,
                "sim_level_refused_transitions": sum(d.get("refused", 0) for d in res)}, exhaustive=not frontier or depth >= maxdepth)
